@@ -860,6 +860,9 @@ func (r *ConcRun) checkDeletedStayHidden(m *Model) *Violation {
 			if co.op.K == "deleteDataset" {
 				m.Drop(co.op.DS)
 			}
+			if co.op.K == "renameDataset" && co.err == nil {
+				m.Rename(co.op.DS, co.op.DS2)
+			}
 		}
 	}
 	pool, preds := collectNames(sc)
@@ -976,6 +979,14 @@ func genC07c(g *G, sc *Scenario, tier string) {
 		sc.Datasets = append(sc.Datasets, "vOld")
 		sc.Ops = append(sc.Ops, Op{K: "batch", DS: "vOld", Ents: []Ent{g.freshEnt(c, g.Pick(c.Pool))}}, Op{K: "deleteDataset", DS: "vOld"})
 		sc.Tasks = append(sc.Tasks, []Op{{K: "gc"}})
+	}
+	if g.P(0.3) {
+		// a dataset that stays is renamed while another client declares its public namespaces; the writers use the
+		// other datasets that stay
+		sc.Datasets = append(sc.Datasets, "dsK")
+		m.Create("dsK")
+		sc.Tasks = append(sc.Tasks, []Op{{K: "renameDataset", DS: keep[0], DS2: "dsR"}}, []Op{{K: "publicNS", DS: keep[0]}})
+		keep = append(append([]string{}, keep[1:]...), "dsK")
 	}
 	if g.P(0.4) {
 		// another client declares the public namespaces of a dataset that is being deleted
